@@ -612,6 +612,9 @@ func (x *Exec) load(t types.Type, addr Value) Value {
 		if a == nil {
 			x.tpanic("invalid memory address or nil pointer dereference")
 		}
+		if x.watch != nil && x.watch[a] {
+			x.watchHit(a, "read")
+		}
 		return copyVal(*a)
 	case *SymPtr:
 		return x.selectElem(a.base, a.idx, a.et)
@@ -639,6 +642,9 @@ func (x *Exec) selectElem(base []Value, idx *Term, et types.Type) Value {
 
 // write is the single point through which memory cells are modified (undo log for speculation).
 func (x *Exec) write(addr *Value, v Value, t types.Type) {
+	if x.watch != nil && x.watch[addr] {
+		x.watchHit(addr, "write")
+	}
 	if x.spec != nil {
 		x.spec.log = append(x.spec.log, undoRec{addr, *addr, t})
 	}
